@@ -677,6 +677,7 @@ func TestRegress(t *testing.T) {
 		// fault-free renders at a fine resolution (more than a million cached distances in the octree, a
 		// quadtree of 13 levels): "every render-to-file call returns" is not only about faults
 		{"stl-mco-sphere-340-no-fault", fc.Case{Sink: "stl", Renderer: "mco", Shape: "sphere", Cells: 340, Path: "big.stl", Fsize: -1, Fault: "none"}, 180},
+		{"stl-mcu-sphere-150-no-fault", fc.Case{Sink: "stl", Renderer: "mcu", Shape: "sphere", Cells: 150, Path: "big-u.stl", Fsize: -1, Fault: "none"}, 180},
 		{"dxf-msq-circle-4000-no-fault", fc.Case{Sink: "dxf", Renderer: "msq", Shape: "circle", Cells: 4000, Path: "big.dxf", Fsize: -1, Fault: "none"}, 180},
 		{"3mf-fsize0", fc.Case{Sink: "3mf", Renderer: "scripted", N: 300, Chunk: 1, Path: "a.3mf", Fsize: 0, Fault: "fsize:0"}, 60},
 		{"dxf-fsize4096", fc.Case{Sink: "dxf", Renderer: "scripted", N: 300, Chunk: 1, Path: "a.dxf", Fsize: 4096, Fault: "fsize:flush-boundary+-1"}, 60},
